@@ -9,6 +9,7 @@ import (
 	"runtime/debug"
 	"runtime/pprof"
 	"sort"
+	"strconv"
 	"strings"
 	"sync"
 	"time"
@@ -40,6 +41,7 @@ type runCfg struct {
 	workers, timeoutMS, maxInstr                              int
 	trace, mapReverse, thorough                               bool
 	deadline                                                  int
+	prefix                                                    string
 }
 
 func cmdRun(args []string) int {
@@ -51,13 +53,15 @@ func cmdRun(args []string) int {
 	fs.StringVar(&c.harness, "harness", "", "harness dir")
 	fs.StringVar(&c.match, "match", "^Verif_", "regexp on harness function names")
 	fs.StringVar(&c.out, "out", "", "write results JSON here")
-	fs.StringVar(&c.solver, "solver", "z3", "solver")
+	fs.StringVar(&c.solver, "solver", "z3-new", "solver")
 	fs.StringVar(&c.solverLog, "solverlog", "", "solver log prefix")
 	fs.IntVar(&c.workers, "workers", 16, "parallel harnesses")
 	fs.IntVar(&c.timeoutMS, "timeout", 60000, "per query timeout ms")
 	fs.IntVar(&c.maxInstr, "maxinstr", 3000000, "instruction budget per path")
 	fs.BoolVar(&c.mapReverse, "mapreverse", false, "reverse map iteration order")
 	fs.IntVar(&c.deadline, "deadline", 120, "per harness deadline in seconds")
+	fs.BoolVar(&c.trace, "sites", false, "report decision sites")
+	fs.StringVar(&c.prefix, "prefix", "", "forced first decisions, comma separated")
 	fs.BoolVar(&c.thorough, "thorough", false, "thorough tier shapes")
 	prof := fs.String("cpuprofile", "", "write cpu profile")
 	fs.Parse(args)
@@ -80,6 +84,22 @@ func cmdRun(args []string) int {
 				break
 			}
 			fmt.Printf("   VIOL %s %q at %s\n      stack: %s\n      inputs: %v\n", v.Kind, v.Msg, v.Site, v.Stack, v.Inputs)
+		}
+		if r.DecisionSites != nil {
+			type kv struct {
+				k string
+				v int
+			}
+			var l []kv
+			for k, v := range r.DecisionSites {
+				l = append(l, kv{k, v})
+			}
+			sort.Slice(l, func(i, j int) bool { return l[i].v > l[j].v })
+			for i, e := range l {
+				if i < 25 {
+					fmt.Printf("   SITE %6d %s\n", e.v, e.k)
+				}
+			}
 		}
 		for _, n := range r.InitNotes {
 			if !strings.Contains(n, "init skipped") {
@@ -153,6 +173,13 @@ func runHarnesses(c runCfg, tweak harnessOpts) ([]*interp.Result, error) {
 			opts.TimeoutMS = c.timeoutMS
 			opts.MaxInstr = c.maxInstr
 			opts.MapReverse = c.mapReverse
+			opts.Trace = c.trace
+			if c.prefix != "" {
+				for _, x := range strings.Split(c.prefix, ",") {
+					n, _ := strconv.Atoi(x)
+					opts.ForcePrefix = append(opts.ForcePrefix, n)
+				}
+			}
 			opts.Thorough = c.thorough
 			opts.Deadline = time.Now().Add(time.Duration(c.deadline) * time.Second)
 			if c.solverLog != "" {
